@@ -64,6 +64,19 @@ declarations:
     wrap_lua: false
 - decl: int twice(int a = 1, int b = 2)
 """
+FUNCS_NS2 = """\
+library: Sel
+cxx_header: sel.hpp
+declarations:
+- decl: namespace outer
+  declarations:
+  - decl: namespace nsx
+    declarations:
+    - decl: int alphaone(int a)
+    - decl: void betatwo(const std::string &s)
+    - decl: double gammathree(double *v +rank(1), int n +implied(size(v)))
+    - decl: bool deltafour(bool flag)
+"""
 DESCS = {
     "functions": FUNCS,
     "overloads": OVERLOADS,
@@ -200,12 +213,12 @@ def run(ctx):
     # ---- (b) per-declaration overrides
     names = ["alphaone", "betatwo", "gammathree"]
     for lang in LANGS:
-        for libdefault, nested in ((True, False), (False, False), (False, True), (True, True)):
+        for libdefault, nested in ((True, False), (False, False), (False, True), (True, True), (False, 2), (True, 2)):
             allflags = list(itertools.product(["inherit", True, False], repeat=3))
             if nested and quick:
                 allflags = allflags[::3]
             for flags in allflags:
-                d = copy.deepcopy(yaml.safe_load(FUNCS_NS if nested else FUNCS))
+                d = copy.deepcopy(yaml.safe_load(FUNCS_NS2 if nested == 2 else FUNCS_NS if nested else FUNCS))
                 opts = d.setdefault("options", {})
                 for l2 in LANGS:
                     opts["wrap_" + l2] = True
@@ -214,7 +227,8 @@ def run(ctx):
                     opts["wrap_fortran"] = False  # Fortran only together with C
                 if lang == "fortran" and not libdefault:
                     pass
-                for fdecl, fl in zip(d["declarations"][0]["declarations"] if nested else d["declarations"], flags):
+                fl_decls = d["declarations"][0]["declarations"][0]["declarations"] if nested == 2 else d["declarations"][0]["declarations"] if nested else d["declarations"]
+                for fdecl, fl in zip(fl_decls, flags):
                     if fl != "inherit":
                         fdecl.setdefault("options", {})["wrap_" + lang] = fl
                 add(("decl", lang, libdefault, flags), d)
